@@ -2,7 +2,10 @@
 
 Correspondence: tree shape produced by the real lexer+parser (NslParser().Parse on a whole module) against the
 Lean model `Prec.parseFull` driven by the precedence table the translator extracted from parser.py (driver `prec`).
-Oracle (independent of model and table): precedence climbing with the six levels of the property statement."""
+Oracle (independent of model and table): precedence climbing with the six levels of the property statement.
+Second observable (the statement says "is evaluated with the grouping"): the VALUE the real compiler + VM compute for every
+operator pair, sampled/all triples and every compound assignment `x op= a o b [o c]` on eight operand tuples, against the
+value of the declared grouping (C-like int semantics; the right-hand side of an assignment, plain or compound, as a whole)."""
 import itertools
 import common, implrun
 
@@ -198,6 +201,88 @@ def explore(run, widen=1):
             flush()
     flush()
     d.close()
+    value_leg(run)
+
+
+# ---- second observable of the property: the VALUE the VM computes on operands that tell the groupings apart
+
+def climb_tree(chain):
+    items = [climb_tree(x) if isinstance(x, list) else x for x in chain]
+    def parse(pos, minlvl):
+        lhs = items[pos]; pos += 1
+        while pos < len(items) and LEVEL[items[pos]] >= minlvl:
+            o = items[pos]
+            rhs, pos = parse(pos + 1, LEVEL[o] + 1)
+            lhs = (o, lhs, rhs)
+        return lhs, pos
+    return parse(0, 1)[0]
+
+
+class _Skip(Exception):
+    pass
+
+
+def ev(t, env):
+    """C-like int semantics of the statement; division by zero and % on negative operands are outside the compared domain"""
+    if isinstance(t, str): return env[t]
+    o, l, r = t
+    a, b = ev(l, env), ev(r, env)
+    if o == "+": return a + b
+    if o == "-": return a - b
+    if o == "*": return a * b
+    if o == "/":
+        if b == 0: raise _Skip()
+        q = abs(a) // abs(b); return q if (a < 0) == (b < 0) else -q
+    if o == "%":
+        if b <= 0 or a < 0: raise _Skip()
+        return a % b
+    if o == "&&": return int(bool(a) and bool(b))
+    if o == "||": return int(bool(a) or bool(b))
+    return int({"<": a < b, "<=": a <= b, ">": a > b, ">=": a >= b, "==": a == b, "!=": a != b}[o])
+
+
+VALS = [dict(a=7, b=3, c=2, d=5), dict(a=2, b=5, c=3, d=1), dict(a=9, b=4, c=6, d=2), dict(a=1, b=8, c=2, d=3), dict(a=6, b=6, c=3, d=2),
+        dict(a=5, b=2, c=9, d=4), dict(a=0, b=3, c=1, d=7), dict(a=12, b=5, c=0, d=1)]
+COMPOUND = {"+=": "+", "-=": "-", "*=": "*", "/=": "/", "%=": "%"}
+
+
+def value_leg(run):
+    rng = run.rng
+    progs = []           # (source, expected tree, kind)
+    for o in itertools.product(OPS, repeat=2):
+        flat = "a %s b %s c" % o
+        t = climb_tree(["a", o[0], "b", o[1], "c"])
+        progs.append(("export function f(int a, int b, int c, int d) -> int { return %s; }" % flat, t, "return"))
+        progs.append(("export function f(int a, int b, int c, int d) -> int { int x = d; x = %s; return x; }" % flat, t, "assign"))
+    for cop, bop in COMPOUND.items():
+        for o in OPS:
+            # x cop a o b  ==  x bop (a o b): the right-hand side extends over the whole following expression
+            progs.append(("export function f(int a, int b, int c, int d) -> int { int x = d; x %s a %s b; return x; }" % (cop, o), (bop, "d", (o, "a", "b")), "compound"))
+        for o in itertools.product(OPS, repeat=2):
+            if run.tier == "thorough" or rng.random() < .25:
+                progs.append(("export function f(int a, int b, int c, int d) -> int { int x = d; x %s a %s b %s c; return x; }" % ((cop,) + o),
+                              (bop, "d", climb_tree(["a", o[0], "b", o[1], "c"])), "compound"))
+    triples = list(itertools.product(OPS, repeat=3))
+    if run.tier != "thorough": triples = rng.sample(triples, 400)
+    for o in triples:
+        progs.append(("export function f(int a, int b, int c, int d) -> int { return a %s b %s c %s d; }" % o, climb_tree(["a", o[0], "b", o[1], "c", o[2], "d"]), "return"))
+    for src, tree, kind in progs:
+        c = implrun.compile_src(src)
+        if c[0] != "ok":
+            run.case((src, "value"), nontrivial=True)
+            run.fail("value", dict(source=src), "a plain int expression does not compile: %s\n%s" % (c[1:3], src), key="value:rejected"); continue
+        prog = implrun.link([c[1].IRModule])
+        for env in VALS:
+            try:
+                want = ev(tree, env)
+            except _Skip:
+                run.count("value:outside-domain"); continue
+            r = implrun.invoke(implrun.new_vm(prog), "f", dict(env), limit=3)
+            run.case((src, tuple(env.values())), nontrivial=True); run.count("value:" + kind)
+            if r[0] != "ok" or r[1] != want:
+                run.fail("value", dict(source=src, args=env, expected=want, got=str(r[:2])),
+                         "f(%s) = %s, the declared grouping gives %s\n%s" % (env, r[:2], want, src), key="value:" + kind)
+                break
 
 
 def search(run):
@@ -215,6 +300,11 @@ def shrink(f):
 def replay(obj):
     implrun.load()
     x = obj["input"]
+    if "args" in x:
+        c = implrun.compile_src(x["source"])
+        if c[0] != "ok": return False, "does not compile: %s" % (c[1:3],)
+        r = implrun.invoke(implrun.new_vm(implrun.link([c[1].IRModule])), "f", dict(x["args"]), limit=3)
+        return r[0] == "ok" and r[1] == x["expected"], "f(%s) = %s, declared grouping: %s" % (x["args"], r[:2], x["expected"])
     got = impl_tree(x["source"])
     if got.startswith("(= x "): got = got[5:-1]
     ok = got == x["expected"]
